@@ -10,6 +10,7 @@ import (
 	"github.com/openGemini/openGemini/lib/util"
 	"github.com/openGemini/openGemini/lib/util/lifted/influx/influxql"
 	proto2 "github.com/openGemini/openGemini/lib/util/lifted/influx/meta/proto"
+	"github.com/openGemini/openGemini/lib/util/lifted/vm/protoparser/influx"
 	"github.com/openGemini/openGemini/lib/verifrt"
 )
 
@@ -54,5 +55,137 @@ func VerifC15Clone() {
 	verifrt.Assert(verifrt.DeepEqual(c.DataNodes, data.DataNodes), "data nodes differ after clone")
 	verifrt.Assert(verifrt.DeepEqual(c.PtView, data.PtView), "partition view differs after clone")
 	verifrt.Assert(verifrt.DeepEqual(c, data), "catalogue clone differs from the original")
+	verifrt.Reach("end")
+}
+
+// VerifC15SnapshotRoundTrip: a snapshot is the catalogue converted to its protobuf structs and back (the
+// byte-level wire step is the protobuf library's and is not encoded). Whatever later commands read must
+// survive: counters, the retention policy with its measurements, shard and index groups, and the
+// measurement version table - also when every measurement of the policy has been dropped, which is when
+// the version table alone decides the physical name of a re-created measurement.
+func VerifC15SnapshotRoundTrip() {
+	data := verifC15Catalogue()
+	dropped := verifrt.Bool("dropped")
+	if dropped {
+		err := data.MarkMeasurementDelete("db", "rp", "m")
+		verifrt.Assert(err == nil, "setup: mark delete failed")
+		rp0, _ := data.RetentionPolicy("db", "rp")
+		for name := range rp0.Measurements {
+			err = data.DropMeasurement("db", "rp", name)
+			verifrt.Assert(err == nil, "setup: drop failed")
+		}
+		verifrt.Assert(len(rp0.Measurements) == 0, "setup: measurement not dropped")
+		verifrt.Reach("empty-policy")
+	}
+	// arbitrary counters, identifiers and versions (time stamps stay concrete: converting an arbitrary
+	// instant to nanoseconds and back is a 64-bit division no back end here decides quickly)
+	data.MaxShardGroupID, data.MaxShardID, data.MaxIndexGroupID = verifrt.Uint64("c1"), verifrt.Uint64("c2"), verifrt.Uint64("c3")
+	data.MaxIndexID, data.MaxMstID, data.MaxNodeID = verifrt.Uint64("c4"), verifrt.Uint64("c5"), verifrt.Uint64("c6")
+	data.Index, data.Term = verifrt.Uint64("c7"), verifrt.Uint64("c8")
+	{
+		rp0, _ := data.RetentionPolicy("db", "rp")
+		if dropped { // any version reached by earlier re-creations (the physical name is derived from it)
+			for name, v := range rp0.MstVersions {
+				v.Version = uint32(verifrt.Uint16("ver"))
+				v.NameWithVersion = influx.GetNameWithVersion(name, v.Version)
+				rp0.MstVersions[name] = v
+			}
+		}
+		for _, m := range rp0.Measurements {
+			m.ID = verifrt.Uint64("mstID")
+			m.MarkDeleted = verifrt.Bool("markDeleted")
+		}
+		for i := range rp0.ShardGroups {
+			rp0.ShardGroups[i].ID = verifrt.Uint64("sgID")
+			for j := range rp0.ShardGroups[i].Shards {
+				rp0.ShardGroups[i].Shards[j].ID = verifrt.Uint64("shID")
+				rp0.ShardGroups[i].Shards[j].IndexID = verifrt.Uint64("ixID")
+			}
+		}
+		rp0.ReplicaN = int(verifrt.Uint32("replicaN"))
+	}
+	pb := data.Marshal()
+	back := &Data{}
+	back.Unmarshal(pb)
+	rp := data.Databases["db"].RetentionPolicies["rp"]
+	brp := back.Databases["db"].RetentionPolicies["rp"]
+	verifrt.Assert(brp != nil, "snapshot lost the retention policy")
+	verifrt.Assert(len(brp.MstVersions) == len(rp.MstVersions), "snapshot lost or invented measurement versions")
+	for name, v := range rp.MstVersions {
+		bv, ok := brp.MstVersions[name]
+		verifrt.Assert(ok && bv.Version == v.Version && bv.NameWithVersion == v.NameWithVersion, "measurement version differs after the snapshot round trip")
+	}
+	verifrt.Assert(len(brp.Measurements) == len(rp.Measurements), "snapshot lost or invented measurements")
+	for name, m := range rp.Measurements {
+		bm := brp.Measurements[name]
+		verifrt.Assert(bm != nil && bm.ID == m.ID && bm.Name == m.Name && bm.MarkDeleted == m.MarkDeleted && bm.EngineType == m.EngineType, "measurement differs after the snapshot round trip")
+		verifrt.Assert(verifrt.DeepEqual(bm.ShardKeys, m.ShardKeys), "shard keys differ after the snapshot round trip")
+	}
+	verifrt.Assert(len(brp.ShardGroups) == len(rp.ShardGroups), "shard group count differs after the snapshot round trip")
+	for i := range rp.ShardGroups {
+		a, b := &rp.ShardGroups[i], &brp.ShardGroups[i]
+		verifrt.Assert(a.ID == b.ID && a.StartTime.Equal(b.StartTime) && a.EndTime.Equal(b.EndTime) && a.EngineType == b.EngineType && len(a.Shards) == len(b.Shards), "shard group differs after the snapshot round trip")
+		for j := range a.Shards {
+			verifrt.Assert(a.Shards[j].ID == b.Shards[j].ID && a.Shards[j].IndexID == b.Shards[j].IndexID && verifrt.DeepEqual(a.Shards[j].Owners, b.Shards[j].Owners), "shard differs after the snapshot round trip")
+		}
+	}
+	verifrt.Assert(rp.Duration == brp.Duration && rp.ShardGroupDuration == brp.ShardGroupDuration && rp.ReplicaN == brp.ReplicaN, "retention policy options differ after the snapshot round trip")
+	verifrt.Assert(back.MaxShardGroupID == data.MaxShardGroupID && back.MaxShardID == data.MaxShardID && back.MaxIndexGroupID == data.MaxIndexGroupID &&
+		back.MaxIndexID == data.MaxIndexID && back.MaxMstID == data.MaxMstID && back.MaxNodeID == data.MaxNodeID && back.Index == data.Index && back.Term == data.Term, "id counters differ after the snapshot round trip")
+	verifrt.Assert(verifrt.DeepEqual(back.DataNodes, data.DataNodes), "data nodes differ after the snapshot round trip")
+	verifrt.Reach("end")
+}
+
+func verifC15Shard(typ string) *proto2.ShardKeyInfo {
+	return &proto2.ShardKeyInfo{ShardKey: []string{"h"}, Type: proto.String(typ)}
+}
+
+// verifC15Replay applies one fixed command log to a fresh catalogue. Every `range` over a map inside the
+// commands takes an arbitrary order (the executor explores them), as on two replicas whose hash maps differ.
+func verifC15Replay(secondName string, markFirst bool, secondType string) (*Data, [3]bool) {
+	data := &Data{PtNumPerNode: 1, NumOfShards: 2}
+	data.CreateDataNode("127.0.0.1:8086", "127.0.0.1:8188", "", "")
+	data.CreateDataNode("127.0.0.2:8086", "127.0.0.2:8188", "", "")
+	_ = data.CreateDatabase("db", nil, nil, false, 1, nil)
+	_, _ = data.CreateDBPtView("db")
+	_ = data.CreateRetentionPolicy("db", &RetentionPolicyInfo{Name: "rp", ReplicaN: 1, ShardGroupDuration: time.Hour, IndexGroupDuration: 2 * time.Hour}, true)
+	var errs [3]bool
+	errs[0] = data.CreateMeasurement("db", "rp", "m", verifC15Shard(influxql.HASH), 0, nil, 0, nil, nil, nil) != nil
+	if markFirst {
+		_ = data.MarkMeasurementDelete("db", "rp", "m")
+	}
+	errs[1] = data.CreateMeasurement("db", "rp", secondName, verifC15Shard(secondType), 0, nil, 0, nil, nil, nil) != nil
+	errs[2] = data.CreateShardGroup("db", "rp", time.Unix(1700000000, 0), util.Hot, config.TSSTORE, 0) != nil
+	return data, errs
+}
+
+// VerifC15ReplicasConverge: two replicas apply the same command log (create a hash-sharded measurement,
+// optionally mark it deleted, create a second measurement - another name, or the same name again - with the
+// same or the other sharding type, create a shard group) with independent, arbitrary map iteration
+// orders; results and catalogues must be equal. Natively Go's own randomised map order is sampled 256 times.
+func VerifC15ReplicasConverge() {
+	verifrt.MapOrder(true)
+	mark := verifrt.Bool("markFirst")
+	typ := []string{influxql.HASH, influxql.RANGE}[verifrt.Choose("secondType", 2)]
+	name := []string{"n", "m"}[verifrt.Choose("secondName", 2)]
+	trials := 1
+	if !verifrt.Symbolic() {
+		trials = 256
+	}
+	for t := 0; t < trials; t++ {
+		a, ea := verifC15Replay(name, mark, typ)
+		b, eb := verifC15Replay(name, mark, typ)
+		verifrt.Assert(ea == eb, "replicas disagree about which commands failed")
+		verifrt.Assert(a.MaxShardID == b.MaxShardID && a.MaxShardGroupID == b.MaxShardGroupID && a.MaxIndexID == b.MaxIndexID, "replicas diverge in their id counters")
+		ra, rb := a.Databases["db"].RetentionPolicies["rp"], b.Databases["db"].RetentionPolicies["rp"]
+		verifrt.Assert(len(ra.ShardGroups) == len(rb.ShardGroups), "replicas diverge in their shard groups")
+		for i := range ra.ShardGroups {
+			verifrt.Assert(len(ra.ShardGroups[i].Shards) == len(rb.ShardGroups[i].Shards), "replicas diverge in the number of shards of a group")
+		}
+		verifrt.Assert(verifrt.DeepEqual(ra.ShardGroups, rb.ShardGroups), "replicas diverge in their shard groups")
+		if !ea[1] && len(ra.Measurements) == 2 {
+			verifrt.Reach("two-measurements")
+		}
+	}
 	verifrt.Reach("end")
 }
